@@ -5,6 +5,7 @@ PROP = {
     "lean_modules": ["SwimVerif.Model.Envelope", "SwimVerif.Proofs.Envelope", "SwimVerif.Generated.EnvelopeTables",
                      "SwimVerif.Model.Routing", "SwimVerif.Model.RoutingMon", "SwimVerif.Proofs.Routing",
                      "SwimVerif.Model.MultiReader", "SwimVerif.Proofs.MultiReader", "SwimVerif.Proofs.MultiReaderReady", "SwimVerif.Proofs.MultiReaderPending",
+                     "SwimVerif.Proofs.MultiReaderRank", "SwimVerif.Proofs.MultiReaderFair",
                      "SwimVerif.Generated.MultiReaderConsts"],
     "engines": [
         {"name": "pure", "crate": "core", "bin": "sv-c11", "machine": "c11pure",
